@@ -86,6 +86,13 @@ class C01Bloom(Scenario):
         if getattr(self, "env", None) is not None:
             self.env.cleanup()
 
+    def hasher(self):
+        if getattr(self, "_hasher", None) is None:
+            from probables import BloomFilter
+
+            self._hasher = BloomFilter(self.cfg["est"], self.cfg["rate"], hash_function=self.env.hf)
+        return self._hasher
+
     def become(self, obj, kind):
         if kind != self.kind:
             self.sub = structs.ALL_SUBJECTS[kind](self.env, self.cfg)
@@ -104,9 +111,9 @@ class C01Bloom(Scenario):
         if op == "add":
             key = seams.key_of(step["k"])
             if self.kind == "ExpandingBloomFilter":
-                sub.obj.add(key, step.get("force", False))
+                structs.api_add(sub.obj, key, step.get("alt"), force=bool(step.get("force", False)), hasher=self.hasher())
             else:
-                sub.obj.add(key)
+                structs.api_add(sub.obj, key, step.get("alt"))
             self.model.add(step["k"])
         elif op == "push":
             if self.kind != "ExpandingBloomFilter":
@@ -203,7 +210,8 @@ class C01Bloom(Scenario):
         sig = {"class": self.kind, "op": step["op"], "chan": step.get("chan")}
         for k in sorted(self.model):
             key = seams.key_of(k)
-            if o.check(key) is not True or not (key in o):
+            alt_ok = structs.api_check(o, key, alt=True, hasher=self.hasher() if self.kind == "ExpandingBloomFilter" else None)
+            if o.check(key) is not True or not (key in o) or alt_ok is not True:
                 raise Violation("false_negative", f"{self.kind}: key {k} ({key!r}) was added and is reported absent after "
                                                   f"{step} (bits={self.m}, hashes={self.k}, hash={self.cfg['hash']})", sig)
         # exported bit array: bits never disappear
